@@ -739,8 +739,8 @@ def _verdicts(ctx, mism, strict_used):
         text = _text_of(m['base'], m['events'], m['step'])
         case = {'mode': m['mode'], 'base': m['base'], 'events': m['events'], 'step': m['step'],
                 'key': m['key']}
-        confirmed = 'shared-process oracle only (2 strict confirmations per site)'
-        if strict_used.get(m['site'], 0) < 2 and ctx.time_left() > 30:
+        confirmed = 'shared-process oracle only (strict confirmation: first input of a site, 4 per run)'
+        if not strict_used.get(m['site']) and len(strict_used) < 4 and ctx.time_left() > 30:
             strict_used[m['site']] = strict_used.get(m['site'], 0) + 1
             a = _strict(ctx, m['base'], text, m['mode'], 0)
             b = _strict(ctx, m['base'], text, m['mode'], 1)
@@ -808,8 +808,8 @@ ASSUMPTIONS = [
     'path mode first, so its path-less histories form one long history',
     'oracle: one fresh interpreter per (base, text) answers mode none then mode path; its '
     'cache directory is a private copy of the stub pickles written by a warm-up process '
-    '(the buffer itself is never pickled).  Every reported mismatch (first two per failure '
-    'site) is re-judged against two single-purpose fresh interpreters (one per (mode, text), '
+    '(the buffer itself is never pickled).  The first mismatch of each failure site (up to 4 '
+    'sites per run) is re-judged against two single-purpose fresh interpreters (one per (mode, text), '
     'empty cache directory, the second with a shifted heap); the base texts are '
     'cross-checked that way on every run',
     'proviso: after each step the tree jedi works on is compared (get_code(), structural dump, '
